@@ -16,7 +16,7 @@ EXPLANATION = (
     "(shared with C04). R12.5 the marker shown by `print` and the line echoed by step/rewind are indexed by that counter and guarded "
     "by the line count. R12.7 a failed operation step restores every snapshotted session field (stack, alt stack, pc, operation count, "
     "conditional stack, code-hash start, signing data, opcode position) from the snapshot taken before it, so the marker keeps "
-    "designating the operation the next step executes. The text of each line is not decided.")
+    "designating the operation the next step executes. The text of each line is not decided. R12.11: the scans that remember the last pushed value of the scriptSig as P2SH redeem script (listing and pane) take the value on every iteration.")
 TRUSTED = ["clang 14 parser/Sema/CFG", "/verif extractor"]
 ASSUMPTIONS = ["GetOp decodes the same operation sequence in the listing loop and in the stepper (same function, same bytes)"]
 DECLINED = ["text of each listing line (snprintf into 1024 bytes truncates pushes longer than ~508 bytes)", "equality of the listed bytes with the executed bytes beyond object identity"]
